@@ -42,10 +42,14 @@ type otherEnv struct {
 	// seeds per reactor/state (deterministic, built once per process)
 	seedCache map[string][]gseed
 	evCache   map[string]*evWorld
+	pexSeq    int
+	bcCache   map[string]*bcWorld
+	txCache   map[string]*txWorld
+	pexCache  map[string]*pexWorld
 }
 
 func newOtherEnv(c *consEnv) *otherEnv { return &otherEnv{cons: c, seedCache: map[string][]gseed{}} }
-func (e *otherEnv) reset()           {}
+func (e *otherEnv) reset()             {}
 
 // gseed is a valid message of a non-consensus reactor.
 type gseed struct {
@@ -178,7 +182,7 @@ func (e *otherEnv) newBC(state string) *bcWorld {
 	}
 	fs := configs.DefaultFastSyncConfig()
 	w.r = blockchain.NewBlockchainReactor(w.n.State(), consensus.VerifC18BlockExec(w.n.CS), w.n.App, fs)
-	w.r.SetSwitch(w.sw)
+	w.sw.AddReactor("BLOCKCHAIN", w.r) // SetSwitch; the switch tells the reactor when it removes a peer
 	if state == bcIdle {
 		w.r.VerifC18UseSwitchReporter()
 	} else {
@@ -212,11 +216,28 @@ func (w *bcWorld) pumpAll(process bool) (finished bool) {
 func (e *otherEnv) runBC(cs *caseT) *outcome {
 	out := &outcome{}
 	seeds := e.bcSeeds()
-	w := e.newBC(cs.State)
-	defer w.close(cs.State)
+	if e.bcCache == nil {
+		e.bcCache = map[string]*bcWorld{}
+	}
+	w := e.bcCache[cs.State]
+	if w == nil {
+		w = e.newBC(cs.State)
+		e.bcCache[cs.State] = w
+	}
+	dirty := cs.State == bcSyncReq || cs.State == bcSyncReq2 // the set-up below moves the scheduler
+	defer func() {
+		if dirty {
+			w.close(cs.State)
+			delete(e.bcCache, cs.State)
+		}
+	}()
 	p, b := newMockPeer(1), newMockPeer(2)
 	p2p.VerifC18AddPeerToSet(w.sw, p)
 	p2p.VerifC18AddPeerToSet(w.sw, b)
+	defer func() {
+		p2p.VerifC18RemovePeerFromSet(w.sw, p)
+		p2p.VerifC18RemovePeerFromSet(w.sw, b)
+	}()
 	saved0 := len(w.n.App.Saved)
 	setup := func() {
 		if cs.State == bcSyncReq || cs.State == bcSyncReq2 {
@@ -315,6 +336,9 @@ func (e *otherEnv) runBC(cs *caseT) *outcome {
 		out.Stage = "bc:block-applied(mutated)"
 	}
 	_ = finished
+	if pn != nil || pn2 != nil || len(out.Viols) > 0 || applied > 0 || (queued > 0 && out.Decoded) || w.r.VerifC18View() != view0 {
+		dirty = true
+	}
 	if pn != nil && pn2 == nil {
 		// post-condition: a well-formed message from another peer is still handled
 		pn3, _ := guarded(func() { w.r.Receive(bcChan, b, seeds[2].Bytes) }) // StatusRequest -> answer
@@ -345,9 +369,9 @@ type stubChain struct {
 	feed    event.Feed
 }
 
-func (c *stubChain) CurrentBlock() *types.Block                        { return c.head }
-func (c *stubChain) GetBlock(common.Hash, uint64) *types.Block         { return c.head }
-func (c *stubChain) StateAt(uint64) (*state.StateDB, error)            { return c.statedb, nil }
+func (c *stubChain) CurrentBlock() *types.Block                { return c.head }
+func (c *stubChain) GetBlock(common.Hash, uint64) *types.Block { return c.head }
+func (c *stubChain) StateAt(uint64) (*state.StateDB, error)    { return c.statedb, nil }
 func (c *stubChain) SubscribeChainHeadEvent(ch chan<- events.ChainHeadEvent) event.Subscription {
 	return c.feed.Subscribe(ch)
 }
@@ -380,6 +404,8 @@ func rlpBytes(x interface{}) []byte {
 	return b
 }
 
+func rlpDecode(b []byte, x interface{}) error { return rlp.DecodeBytes(b, x) }
+
 func txMsg(sum interface{}) []byte {
 	m := &txproto.Message{}
 	switch s := sum.(type) {
@@ -396,8 +422,8 @@ func txMsg(sum interface{}) []byte {
 }
 
 var (
-	txOnce  sync.Once
-	txGood  *types.Transaction // the valid transaction of the seeds
+	txOnce   sync.Once
+	txGood   *types.Transaction // the valid transaction of the seeds
 	txInPool *types.Transaction // the transaction a "holding" pool already has
 )
 
@@ -465,7 +491,7 @@ func (e *otherEnv) newTx(state string) *txWorld {
 	cfg.Broadcast = true
 	w.pool = tx_pool.NewTxPool(cfg, configs.TestChainConfig, w.chain)
 	w.r = tx_pool.NewReactor(cfg, w.pool)
-	w.r.SetSwitch(w.sw)
+	w.sw.AddReactor("TXPOOL", w.r)
 	if err := w.r.Start(); err != nil {
 		panic("MACHINERY: tx reactor start: " + err.Error())
 	}
@@ -484,8 +510,21 @@ func (w *txWorld) close() {
 
 func (e *otherEnv) runTx(cs *caseT) *outcome {
 	out := &outcome{}
-	w := e.newTx(cs.State)
-	defer w.close()
+	if e.txCache == nil {
+		e.txCache = map[string]*txWorld{}
+	}
+	w := e.txCache[cs.State]
+	if w == nil {
+		w = e.newTx(cs.State)
+		e.txCache[cs.State] = w
+	}
+	dirty := false
+	defer func() {
+		if dirty {
+			w.close()
+			delete(e.txCache, cs.State)
+		}
+	}()
 	p, b := newMockPeer(1), newMockPeer(2)
 	if cs.Peer == peerKnown {
 		w.r.AddPeer(p)
@@ -547,6 +586,10 @@ func (e *otherEnv) runTx(cs *caseT) *outcome {
 	}
 	if !out.Decoded && !p.wasStopped() && pn == nil {
 		out.Stage = "decode-error-peer-kept"
+	}
+	// anything the reactor acted on may have left traces in the pool or the fetcher
+	if out.Decoded && cs.Peer == peerKnown || pn != nil || len(out.Viols) > 0 || pend1+q1 != pend0+q0 {
+		dirty = true
 	}
 	if pn != nil {
 		// post-condition: a well-formed message from another peer is still handled
@@ -627,7 +670,7 @@ func (e *otherEnv) newEv(stateName string) *evWorld {
 		panic("MACHINERY: evidence node: " + err.Error())
 	}
 	w := &evWorld{c: c, r: evidence.NewReactor(c.N.EvPool)}
-	w.r.SetSwitch(c.Sw)
+	c.Sw.AddReactor("EVIDENCE", w.r)
 	return w
 }
 
@@ -730,7 +773,10 @@ func resignEvidence(raw []byte, key int) (out []byte) {
 	if err := proto.Unmarshal(raw, &l); err != nil || len(l.Evidence) == 0 {
 		return nil
 	}
-	for _, ev := range l.Evidence {
+	for i, ev := range l.Evidence {
+		if i >= 3 {
+			break // copies of an entry carry the signature of what they copy
+		}
 		dv, ok := ev.Sum.(*kproto.Evidence_DuplicateVoteEvidence)
 		if !ok || dv.DuplicateVoteEvidence == nil {
 			return nil
@@ -777,14 +823,35 @@ func (e *otherEnv) pexSeeds() []gseed {
 	return s
 }
 
+type pexWorld struct {
+	book pex.AddrBook
+	r    *pex.Reactor
+}
+
 func (e *otherEnv) runPex(cs *caseT) *outcome {
 	out := &outcome{}
-	e.builds++
-	book := pex.NewAddrBook("/nonexistent/c18-addrbook.json", true)
-	r := pex.NewReactor(book, &pex.ReactorConfig{})
-	sw := p2p.VerifC18NewSwitch(configs.DefaultP2PConfig())
-	r.SetSwitch(sw)
-	p, b := newMockPeer(1), newMockPeer(2)
+	if e.pexCache == nil {
+		e.pexCache = map[string]*pexWorld{}
+	}
+	pw := e.pexCache[cs.State]
+	if pw == nil {
+		e.builds++
+		pw = &pexWorld{book: pex.NewAddrBook("/nonexistent/c18-addrbook.json", true)}
+		pw.r = pex.NewReactor(pw.book, &pex.ReactorConfig{})
+		sw := p2p.VerifC18NewSwitch(configs.DefaultP2PConfig())
+		sw.AddReactor("PEX", pw.r)
+		e.pexCache[cs.State] = pw
+	}
+	book, r := pw.book, pw.r
+	e.pexSeq++
+	// a new identity per case: the reactor keeps per-peer request bookkeeping
+	p, b := newMockPeer(10+2*e.pexSeq), newMockPeer(11+2*e.pexSeq)
+	defer func() {
+		if out.Decoded || out.Contained != "" || len(out.Viols) > 0 || e.pexSeq > 100000 {
+			delete(e.pexCache, cs.State)
+			e.pexSeq = 0
+		}
+	}()
 	p.outbound = true
 	if cs.State == pexSolicited {
 		r.RequestAddrs(p)
@@ -822,7 +889,7 @@ func (e *otherEnv) runPex(cs *caseT) *outcome {
 		out.Stage = "pex:addresses-added"
 	case p.wasStopped():
 		out.Stage = "rejected-peer-stopped"
-	case p.sentTot != sent0 + 0 && p.sentTot > sent0:
+	case p.sentTot != sent0+0 && p.sentTot > sent0:
 		out.Stage = "answered"
 	default:
 		out.Stage = "accepted-no-effect"
